@@ -639,8 +639,67 @@ static bool cmpMatExact(Ctx& c, const std::string& oracle, const std::string& ke
 // ===================================================================================================
 // experimental variograms
 // ===================================================================================================
+// variogram of a GRID along grid increments (Vario::_calculateOnGridSolution). Masked cells cannot be removed physically from
+// a grid: the reference is the same grid WITHOUT selection whose masked cells hold the undefined value ("masked or
+// undefined samples never influence a result": both must give the same table); masked cells are poisoned.
+static void opVarioGrid(Rng& r, Ctx& c)
+{
+  int ndim = r.coin(0.8) ? 2 : 3;
+  defineDefaultSpace(ESpaceType::RN, ndim);
+  VectorInt nx(ndim);
+  VectorDouble dx(ndim), x0(ndim);
+  int m = 1;
+  for (int d = 0; d < ndim; d++) { nx[d] = r.irange(4, ndim == 2 ? 10 : 5); dx[d] = r.uni(0.5, 3.); x0[d] = r.uni(-5, 10); m *= nx[d]; }
+  int nvar = r.irange(1, 2);
+  double p = r.uni(0.15, 0.5);
+  std::vector<int> masked(m);
+  int nact = 0;
+  for (auto& v : masked) { v = r.coin(p); nact += !v; }
+  if (nact < 4) { masked.assign(m, 0); for (int j = 0; j < m; j += 3) masked[j] = 1; }
+  static const std::vector<ECalcVario> calcs = {ECalcVario::VARIOGRAM, ECalcVario::MADOGRAM, ECalcVario::COVARIANCE_NC, ECalcVario::ORDER4};
+  ECalcVario calc = r.coin(0.5) ? ECalcVario::VARIOGRAM : r.pick(calcs);
+  std::string cn(calc.getKey());
+  c.setSig(fmt("vario-grid:%s:ndim=%d:nvar=%d", cn.c_str(), ndim, nvar));
+  c.puts("op", "Vario::compute on a DbGrid with grid directions");
+  std::unique_ptr<DbGrid> gM(DbGrid::create(nx, dx, x0)), gR(DbGrid::create(nx, dx, x0));
+  for (int v = 0; v < nvar; v++)
+  {
+    VectorDouble zM(m), zR(m);
+    for (int j = 0; j < m; j++)
+    {
+      double z = r.coin(0.08) ? TEST : 3. * r.normal() + 0.2 * (j % nx[0]);
+      zM[j] = masked[j] ? POISON_VAL : z;
+      zR[j] = masked[j] ? TEST : z;
+    }
+    gM->addColumns(zM, fmt("z%d", v + 1), ELoc::Z, v);
+    gR->addColumns(zR, fmt("z%d", v + 1), ELoc::Z, v);
+  }
+  VectorDouble sel(m);
+  for (int j = 0; j < m; j++) sel[j] = masked[j] ? 0. : 1.;
+  gM->addColumns(sel, "sel", ELoc::SEL, 0);
+  int npas = r.irange(2, 4);
+  std::unique_ptr<VarioParam> vp(VarioParam::createMultipleFromGrid(gM.get(), npas));
+  if (!vp) throw SkipCase{"varioparam-null"};
+  std::unique_ptr<Vario> vM(Vario::create(*vp)), vR(Vario::create(*vp));
+  int errM = vM->compute(gM.get(), calc), errR = vR->compute(gR.get(), calc);
+  std::string K = "C05:vario-grid:" + cn + ":masked-vs-undefined";
+  c.truth("vario-grid:rc", K + ":return-code", (errM == 0) == (errR == 0), fmt("masked rc=%d undefined rc=%d", errM, errR));
+  if (errM != 0 || errR != 0) return;
+  c.truth("vario-grid:shape", K + ":shape", vM->getDirectionNumber() == vR->getDirectionNumber());
+  for (int id = 0; id < vM->getDirectionNumber() && id < vR->getDirectionNumber(); id++)
+    for (int iv = 0; iv < nvar; iv++)
+      for (int jv = 0; jv <= iv; jv++)
+      {
+        std::string w = fmt("dir%d(%d,%d)", id, iv, jv);
+        cmpVecExact(c, "vario-grid:sw", K + ":differs", "sw:" + w, vM->getSwVec(id, iv, jv, false), vR->getSwVec(id, iv, jv, false));
+        cmpVecExact(c, "vario-grid:hh", K + ":differs", "hh:" + w, vM->getHhVec(id, iv, jv, false), vR->getHhVec(id, iv, jv, false));
+        cmpVecExact(c, "vario-grid:gg", K + ":differs", "gg:" + w, vM->getGgVec(id, iv, jv, false, false, false), vR->getGgVec(id, iv, jv, false, false, false));
+      }
+}
+
 static void opVario(Rng& r, Ctx& c)
 {
+  if (c.icase % 3 == 0) { opVarioGrid(r, c); return; }
   GenOpt o;
   o.nmax    = c.thorough() ? 120 : 40;
   o.nvarMax = c.thorough() ? 3 : 2;
@@ -1081,6 +1140,20 @@ static void opSimtub(Rng& r, Ctx& c)
       int i = s.kept[r.irange(0, s.nkept() - 1)], j = g.active[r.irange(0, (int)g.active.size() - 1)];
       for (int d = 0; d < s.ndim; d++) s.x[d][i] = nodeCoord(j, d) + (d == 0 ? 2e-5 : 0.);
     }
+  }
+  // (c) every other such case: a datum MASKED by the selection (coordinates not poisoned) is put exactly on an active grid node.
+  // Its (poisoned) value must not be copied onto that node; the reduced run does not contain it.
+  if (cond && !nearNode && s.by == BY_SEL && !s.poisonCoord && !g.active.empty() && c.icase % 2 == 0)
+  {
+    auto nodeCoord = [&](int j, int d) { int idx = j; for (int k = 0; k < d; k++) idx /= g.nx[k]; return g.x0[d] + (idx % g.nx[d]) * g.dx[d]; };
+    for (int i = 0; i < s.n; i++)
+      if (s.cls[i] != KEEP)
+      {
+        int j = g.active[(size_t)(c.icase / 2) % g.active.size()];
+        for (int d = 0; d < s.ndim; d++) s.x[d][i] = nodeCoord(j, d);
+        c.probe("simtub:masked-datum-on-grid-node");
+        break;
+      }
   }
   bool linear = r.coin(hasUndefValueSamples(s) ? 0.3 : 0.15) && !avoid("linear", AVOID_LINEAR) && s.by != BY_SELNA && !nearNode; // (one exotic feature at a time)
   // (a field reduced to ONE point has a zero extension: the intrinsic generator then never returns, masks or not)
